@@ -23,7 +23,7 @@ def run(ctx):
         ctx.add(Harness('C09_epoch_%d_%d' % (lo, hi), VERIF + '/harness/C09_epoch.c', defines=defs + ['YLO=%d' % lo, 'YHI=%d' % hi], unwind=3, backend='kissat', timeout=600,
                         functions=['FIX8::time_to_epoch'], bounds='every valid (y,mo,d,h,mi,s) with year in [%d, %d]' % (lo, hi), desc='custom mktime == days_from_civil reference'))
     for ind in (5, 1, 3, 2):
-        ctx.add(Harness('C09_%s' % NAMES[ind], VERIF + '/harness/C09_codec.c', defines=defs + ['IND=%d' % ind, 'YLO=1970', 'YHI=2099', 'EPOCH_STUB'], unwind=23,
+        ctx.add(Harness('C09_%s' % NAMES[ind], VERIF + '/harness/C09_codec.c', defines=defs + ['IND=%d' % ind, 'YLO=1970', 'YHI=2099'] + (['EPOCH_STUB'] if ind != 1 else []), unwind=23,
                         backend='cvc5int', timeout=900, functions=FUN,
                         stubs=["gmtime_r := returns the harness's civil fields after checking the requested second (proleptic Gregorian contract)",
                                'time_to_epoch := contract (fields in -> reference seconds out), discharged by the C09_epoch_* harnesses'],
